@@ -54,6 +54,11 @@ the model's `abort = true` -/
 theorem http_aborts_started_response :
     RqModel.Gen.Backup.httpBackupAbortsStartedResponse = some true := by decide
 
+/-- the wrapper through which `handleBackup` streams declares `Write` only: no `ReadFrom` /
+`WriteTo` fast path through which `io.Copy` could bypass the `started` flag -/
+theorem backup_writer_has_no_fast_path :
+    RqModel.Gen.Backup.backupResponseWriterMethods = ["Write"] := by decide
+
 /-! ### 1. binary backup under the gate -/
 
 structure Inv (d : Db) : Prop where
